@@ -38,9 +38,13 @@ func (n Name) pack(msg []byte, off int, compression map[string]uint16) (int, err
 		// segment. A pointer is two bytes with the two most significant
 		// bits set to 1 to indicate that it is a pointer.
 		if compression != nil {
-			if ptr, ok := compression[string(n[labelStart:])]; ok {
+			if ptr, ok := compression[string(n[labelStart:])]; ok && ptrDepth(msg, int(ptr)) < maxNamePtrs {
 				// Hit. Emit a pointer instead of the rest of
 				// the domain.
+				// (A target that already needs maxNamePtrs pointers to
+				// read is not used: decoders, including ours, follow
+				// only that many. The label is written out and the
+				// next, shorter suffix is tried.)
 				return packNamePtr(msg, off, [2]byte{byte(ptr>>8 | 0xC0), byte(ptr)})
 			}
 
@@ -69,6 +73,35 @@ func (n Name) pack(msg []byte, off int, compression map[string]uint16) (int, err
 		return off, err
 	}
 	return packByte(msg, off, 0)
+}
+
+// maxNamePtrs is the number of compression pointers that are followed when
+// a name is read (the same limit as golang.org/x/net/dns/dnsmessage).
+const maxNamePtrs = 10
+
+// ptrDepth returns how many pointers have to be followed to read the name
+// that was packed at msg[off:].
+func ptrDepth(msg []byte, off int) int {
+	depth := 0
+	for off < len(msg) && depth <= maxNamePtrs {
+		c := int(msg[off])
+		switch c & 0xC0 {
+		case 0x00:
+			if c == 0 {
+				return depth
+			}
+			off += 1 + c
+		case 0xC0:
+			if off+1 >= len(msg) {
+				return depth
+			}
+			depth++
+			off = (c&0x3F)<<8 | int(msg[off+1])
+		default:
+			return depth
+		}
+	}
+	return depth
 }
 
 func ToLowerName(n []byte) error {
@@ -266,7 +299,7 @@ Loop:
 				newOff = currOff
 			}
 			// Don't follow too many pointers, maybe there's a loop.
-			if ptr++; ptr > 10 {
+			if ptr++; ptr > maxNamePtrs {
 				return off, errTooManyPtr
 			}
 			currOff = (c^0xC0)<<8 | int(c1)
